@@ -20,7 +20,8 @@ PROPERTY = "C11"
 LEVEL = "exploration"
 BUDGET = {"quick": {"runs": 900, "wall": 55}, "thorough": {"runs": 30000, "wall": 570}}
 RULE = ("Each run: latency 0-500 ms per direction, 1-3 channels, seeded programs of data writes, channel requests "
-        "with want_reply, global requests both ways, channel open/close, optional keepalives, and 1-2 re-exchanges "
+        "with want_reply, global requests both ways, channel open/close, a channel half-closed and closed from both ends, "
+        "optional keepalives, and 1-2 re-exchanges "
         "started by client, server or both at seeded instants (explicit call or scaled thresholds).")
 COMPONENTS = {"real": ["both Transports, Channels, Packetizers unmodified"], "simulated": ["socket with latency", "clock", "scheduling", "entropy"],
               "oracle": ["ObservingPacketizer wire-order log; byte ledgers; API results"]}
@@ -29,12 +30,46 @@ ASSUMPTIONS = ["SERVICE_REQUEST/ACCEPT (5/6) inside the window are only counted 
 LIMIT = 120.0
 
 
+def _find_lines():
+    """Source lines of Transport._parse_newkeys at which a second application thread may be released (found by
+    their text, so that an edited tree is still instrumented or, failing that, the directed shape is skipped)."""
+    import inspect
+    import paramiko.transport as t_mod
+    out = {}
+    try:
+        src, first = inspect.getsourcelines(t_mod.Transport._parse_newkeys)
+    except Exception:
+        return out
+    for i, line in enumerate(src):
+        t = line.strip()
+        if t == "self.local_kex_init = self.remote_kex_init = None":
+            out[(t_mod.__file__, first + i + 1)] = "newkeys-state-reset"
+        elif t == "self.clear_to_send_lock.acquire()":
+            out[(t_mod.__file__, first + i)] = "newkeys-before-lock"
+        elif t == "self.clear_to_send_lock.release()":
+            out[(t_mod.__file__, first + i)] = "newkeys-before-unlock"
+    return out
+
+
+WATCH = _find_lines()
+
+
 def sim_kw(seed):
-    return {"max_steps": 6_000_000, "max_time": 7200.0}
+    kw = {"max_steps": 6_000_000, "max_time": 7200.0}
+    if seed % 3 == 0:
+        # statement-level pre-emption inside the functions that start and finish an exchange
+        import paramiko.transport as t_mod
+        kw.update(trace_files={t_mod.__file__},
+                  trace_funcs={"_parse_newkeys", "_send_kex_init", "_send_kex_init_locked", "renegotiate_keys",
+                               "_send_user_message", "_parse_kex_init", "_activate_outbound"})
+    return kw
 
 
 def scenario(sim):
     sim.p_switch = (0.02, 0.1, 0.3)[sim.choose(3)]
+    if sim.trace_files:
+        sim.p_preempt = (0.02, 0.1, 0.3)[sim.choose(3)]
+        sim.max_preempt = (4, 12, 60)[sim.choose(3)]
     lat_c = (0.0, 0.01, 0.1, 0.5)[sim.choose(4)]
     lat_s = (0.0, 0.01, 0.1, 0.5)[sim.choose(4)]
     link = Link(sim, latency=(lat_c, lat_s))
@@ -45,6 +80,27 @@ def scenario(sim):
     if use_thresholds:
         thr = {"REKEY_BYTES": 1 << (13 + sim.choose(3)), "REKEY_PACKETS": 1 << 20,
                "REKEY_BYTES_OVERFLOW_MAX": 1 << 22, "REKEY_PACKETS_OVERFLOW_MAX": 1 << 20}
+    directed = {"on": False}
+    if sim.trace_files and WATCH and sim.choose(2):
+        # directed shape: a second application thread calls renegotiate_keys() exactly when the transport thread is
+        # finishing an exchange (released at a seeded statement of _parse_newkeys)
+        from sim import shims
+        import sys as _sys
+        directed.update(on=True, armed=False, target=None, ev=shims.Event(),
+                        tag=sorted(set(WATCH.values()))[sim.choose(len(set(WATCH.values())))],
+                        yield_after=bool(sim.choose(2)))
+
+        def hook(tag, frame):
+            if directed["armed"] and tag == directed["tag"] and frame.f_locals.get("self") is directed["target"]:
+                directed["armed"] = False
+                sim.probe("second_thread_released_at_" + tag)
+                directed["ev"].set()
+                if directed["yield_after"]:
+                    sim.sleep(1e-5)
+        sim.watch_lines = WATCH
+        sim.line_hook = hook
+        sim._tracer = sim._make_tracer()
+        _sys.settrace(sim._tracer)
     p = ssh.Pair(sim, link=link, client_pk=ssh.observing_packetizer("c", plog, **thr),
                  server_pk=ssh.observing_packetizer("s", plog, **thr))
     p.plog = plog
@@ -166,6 +222,43 @@ def scenario(sim):
 
     stop = [False]
     extra = []
+    # a channel that is half-closed / closed from both ends around the re-exchange: EOF and CLOSE (and the window
+    # adjusts for the data before them) cross the KEXINITs while a user thread sits in shutdown_write()/close()
+    if sim.choose(2):
+        hc = p.tc.open_session(timeout=60)
+        hs = p.ts.accept(60)
+        hc.settimeout(LIMIT); hs.settimeout(LIMIT)
+        da, db = [(0.0, 0.04, 0.3, 1.0)[sim.choose(4)] for _ in range(2)]
+        na, nb = [(0, 100, 40000)[sim.choose(3)] for _ in range(2)]
+        order = sim.choose(3)
+        desc["half_close"] = [da, db, na, nb, order]
+
+        def drain(c):
+            while c.recv(32768):
+                pass
+
+        def half_close_client():
+            sim.sleep(da)
+            if na:
+                hc.sendall(b"c" * na)
+            hc.shutdown_write()
+            drain(hc)
+            if order != 1:
+                hc.close()
+
+        def half_close_server():
+            sim.sleep(db)
+            if nb:
+                hs.sendall(b"s" * nb)
+            if order == 2:
+                hs.send_exit_status(0)
+            hs.shutdown_write()
+            drain(hs)
+            if order != 0:
+                hs.close()
+        tasks.append(sim.spawn(guarded("half_close_c", half_close_client), "half_close_c"))
+        tasks.append(sim.spawn(guarded("half_close_s", half_close_server), "half_close_s"))
+        sim.probe("half_close_channel")
     tasks.append(sim.spawn(guarded("client_ops", client_ops), "client_ops"))
     tasks.append(sim.spawn(guarded("server_ops", server_ops), "server_ops"))
     acc = sim.spawn(guarded("acceptor", acceptor), "acceptor")
@@ -185,6 +278,23 @@ def scenario(sim):
             tasks.append(sim.spawn(guarded("rekey_c", lambda: rekeyer(p.tc, [(0.0, 0.05, 0.3, 1.0)[sim.choose(4)] for _ in range(nre)])), "rekey_c"))
         if who in (1, 2):
             tasks.append(sim.spawn(guarded("rekey_s", lambda: rekeyer(p.ts, [(0.0, 0.05, 0.3, 1.0)[sim.choose(4)] for _ in range(nre)])), "rekey_s"))
+        if directed["on"]:
+            directed["target"] = (p.tc, p.ts)[sim.choose(2)]
+            desc["second_thread_at"] = [directed["tag"], "client" if directed["target"] is p.tc else "server"]
+
+            def rekey_at_end():
+                directed["armed"] = True
+                if directed["ev"].wait(LIMIT / 2):
+                    directed["target"].renegotiate_keys()
+                    sim.probe("explicit_rekey")
+            tasks.append(sim.spawn(guarded("rekey_y", rekey_at_end), "rekey_y"))
+        if sim.choose(2):
+            # a second, independent application thread on one side also asks for new keys now and then: its call can
+            # fall into an exchange in progress, or right at its end
+            t2 = (p.tc, p.ts)[sim.choose(2)]
+            d2 = [(0.0, 0.001, 0.01, 0.05, 0.3)[sim.choose(5)] for _ in range(1 + sim.choose(3))]
+            desc["second_rekeyer"] = ["client" if t2 is p.tc else "server", d2]
+            tasks.append(sim.spawn(guarded("rekey_x", lambda: rekeyer(t2, d2)), "rekey_x"))
     end = sim.now + LIMIT
     while any(t.state != core.DONE for t in tasks) and sim.now < end:
         sim.sleep(0.25)
